@@ -77,15 +77,46 @@ def param_line(g, group, name, ptype=None, valid=True, dims_n=None, desc=None, l
     g.count("param_%s_%dd" % (ptype, nd))
     return "param %s %s %s %d %s %s %s" % (xhex(group), xhex(name), xhex(desc), int(locked), ptype, dimstr, vals)
 
+class Shadow:
+    """approximate mirror of the object's shape so that most generated calls are valid"""
+    def __init__(self):
+        self.pts, self.chs = [], []
+        self.prate = self.arate = 0.0
+        self.frames = []          # list of (npts, nsubs) per stored frame
+        self.desync = False
+    def nabf(self):
+        if self.frames and self.frames[0][1]: return self.frames[0][1]
+        if not self.prate: return 1
+        return int(self.arate / self.prate)
+    def frame_ok(self, pn, cn, ns):
+        pn = [n.rstrip(b" ") for n in pn]
+        if self.pts and len(pn) != len(self.pts): return False
+        if any(l not in pn for l in self.pts): return False
+        if pn and not self.prate: return False
+        if ns and not self.arate: return False
+        if ns and not (len(self.chs) == 0 and self.nabf() == 0) and len(cn) != len(self.chs): return False
+        return True
+    def store(self, pn, cn, ns, idx):
+        ent = (len(pn), ns if True else 0)
+        first = not self.frames
+        if idx is None: self.frames.append(ent)
+        else:
+            while len(self.frames) <= idx: self.frames.append((0, 0))
+            self.frames[idx] = ent
+        # parameters follow frame 0
+        if self.frames[0][0] != len(self.pts) and (first or idx == 0):
+            self.pts = [n.rstrip(b" ") for n in pn]
+        if (first or idx == 0):
+            if ns and len(cn) != len(self.chs): self.chs = [n.rstrip(b" ") for n in cn]
+            if not ns and self.chs: self.chs = []
+
 def gen_api_history(seed, nops=30, malformed=0.25, with_io=None, caller_mut=0.0, big=False):
-    """state-aware history over the full op alphabet; returns list of lines.
+    """state-aware history over the full op alphabet; returns (lines, stats).
     with_io: None, or a path prefix for save/reload ops."""
     g = G(seed); r = g.r
     L = ["new"]
-    pts, chs = [], []          # declared names (upper/lower mixed)
-    prate = arate = 0.0
+    S = Shadow()
     nsub = 1
-    nframes = 0
     groups = [b"POINT", b"ANALOG", b"FORCE_PLATFORM"]
     nvar = 0
     nsave = [0]
@@ -93,25 +124,30 @@ def gen_api_history(seed, nops=30, malformed=0.25, with_io=None, caller_mut=0.0,
         nsave[0] += 1; return "%s.%d.c3d" % (with_io, nsave[0])
     def newvar():
         nonlocal nvar; nvar += 1; return "v%d" % nvar
+    def set_prate(v):
+        S.prate = v; L.append("param %s %s x 0 F - %s" % (xhex(b"POINT"), xhex(b"RATE"), f2h(v)))
+    def set_arate(v):
+        S.arate = v; L.append("param %s %s x 0 F - %s" % (xhex(b"ANALOG"), xhex(b"RATE"), f2h(v)))
     # a typical prefix most of the time so that histories reach interesting states
-    if r.random() < 0.85:
+    if r.random() < 0.9:
         for _ in range(r.choice([0, 1, 2, 3, 3, 5] if not big else [8, 20])):
             n = g.simple_name(b"P")
-            if n not in pts: pts.append(n); L.append("point " + xhex(n))
+            if n not in S.pts: S.pts.append(n); L.append("point " + xhex(n))
         for _ in range(r.choice([0, 0, 1, 2, 3] if not big else [6, 12])):
             n = g.simple_name(b"C")
-            if n not in chs: chs.append(n); L.append("analog " + xhex(n))
-        if r.random() < 0.9:
-            prate = r.choice([50.0, 100.0, 120.0, 10.0]); L.append("param %s %s x 0 F - %s" % (xhex(b"POINT"), xhex(b"RATE"), f2h(prate)))
-        if r.random() < 0.8:
-            nsub = r.choice([1, 1, 2, 3, 5]); arate = prate * nsub
-            L.append("param %s %s x 0 F - %s" % (xhex(b"ANALOG"), xhex(b"RATE"), f2h(arate)))
+            if n not in S.chs: S.chs.append(n); L.append("analog " + xhex(n))
+        if r.random() < 0.95: set_prate(r.choice([50.0, 100.0, 120.0, 10.0]))
+        if S.prate and r.random() < 0.9:
+            nsub = r.choice([1, 1, 2, 3, 5]); set_arate(S.prate * nsub)
     for _ in range(nops):
         c = r.random()
         bad = r.random() < malformed
+        nframes = len(S.frames)
         if c < 0.30:   # frame
             v = newvar()
-            pn = list(pts); cn = list(chs); ns = nsub if chs else r.choice([0, 0, nsub])
+            pn = list(S.pts); cn = list(S.chs)
+            ns = (S.nabf() if S.arate else 0) if S.chs else r.choice([0, 0, S.nabf() if S.arate else 0])
+            if not S.chs and ns and r.random() < 0.7: ns = 0
             if bad:
                 dev = r.choice(["fewpt", "morept", "rename", "dup", "empty", "fewch", "morech", "nsub", "swap"])
                 g.count("dev_" + dev)
@@ -124,63 +160,83 @@ def gen_api_history(seed, nops=30, malformed=0.25, with_io=None, caller_mut=0.0,
                 elif dev == "morech": cn.append(g.simple_name(b"D")); ns = max(ns, 1)
                 elif dev == "nsub": ns = r.choice([0, ns + 1, max(ns - 1, 0)])
                 elif dev == "swap" and len(pn) > 1: pn[0], pn[1] = pn[1], pn[0]
-            p, s = frame_spec(g, pn, cn, ns)
-            L.append("mkframe %s %s %s" % (v, p, s))
+            if ns == 0: cn_eff = []
+            else: cn_eff = cn
+            p, s_ = frame_spec(g, pn, cn_eff, ns)
+            if s_ == "-": ns = 0
+            L.append("mkframe %s %s %s" % (v, p, s_))
             k = r.random()
             if k < 0.6 or nframes == 0: L.append("frame %s" % v); idx = None
             else:
                 idx = r.choice([0, max(nframes - 1, 0), nframes, nframes + 1, nframes + r.randint(2, 4), r.randrange(nframes)])
                 L.append("frame %s %d" % (v, idx))
             g.count("op_frame")
-            if not bad:
-                nframes = nframes + 1 if idx is None else max(nframes, idx + 1)
+            ok = S.frame_ok(pn, cn_eff, ns)
+            if ok: S.store(pn, cn_eff, ns, idx)
             if caller_mut and r.random() < caller_mut:
                 # mutate / re-submit the caller's object
                 if pn: L.append("cmut %s pt %d %s %s %s %s" % (v, r.randrange(len(pn)), g.fbits(), g.fbits(), g.fbits(), g.fbits()))
-                if r.random() < 0.5: L.append("frame %s" % v); nframes += 0 if bad else 1
-                if pn and r.random() < 0.5: L.append("cmut %s pt 0 %s %s %s %s" % (v, g.fbits(), g.fbits(), g.fbits(), g.fbits()))
-                if nframes and pn and r.random() < 0.5: L.append("smut %d pt 0 %s %s %s %s" % (r.randrange(max(nframes, 1)), g.fbits(), g.fbits(), g.fbits(), g.fbits()))
+                if ns and cn_eff and r.random() < 0.5: L.append("cmut %s ch %d %d %s" % (v, r.randrange(ns), r.randrange(len(cn_eff)), g.fbits()))
                 L.append("dump")
+                if r.random() < 0.6:
+                    L.append("frame %s" % v)
+                    if S.frame_ok(pn, cn_eff, ns): S.store(pn, cn_eff, ns, None)
+                    if pn: L.append("cmut %s pt 0 %s %s %s %s" % (v, g.fbits(), g.fbits(), g.fbits(), g.fbits()))
+                    L.append("dump")
+                if S.frames and r.random() < 0.6:
+                    fi = r.randrange(len(S.frames))
+                    if S.frames[fi][0]: L.append("smut %d pt %d %s %s %s %s" % (fi, r.randrange(S.frames[fi][0]), g.fbits(), g.fbits(), g.fbits(), g.fbits()))
+                if r.random() < 0.3:
+                    L.append("cmut %s addpt %s" % (v, point_str(g, g.simple_name(b"Z")))); L.append("dump")
         elif c < 0.40:  # point by name
-            n = g.simple_name(b"P") if not bad else (r.choice(pts) if pts and r.random() < 0.6 else g.name(0, special=0.3))
+            n = g.simple_name(b"P") if not bad else (r.choice(S.pts) if S.pts and r.random() < 0.6 else g.name(0, special=0.3))
             L.append("point " + xhex(n)); g.count("op_point")
-            if n not in pts and not bad: pts.append(n)
+            if nframes == 0: S.pts.append(n)
+            elif n.rstrip(b" ") not in S.pts:
+                S.pts.append(n.rstrip(b" ")); S.frames = [(a + 1, b) for a, b in S.frames]
         elif c < 0.48:  # analog by name
-            n = g.simple_name(b"C") if not bad else (r.choice(chs) if chs and r.random() < 0.6 else g.name(0, special=0.3))
+            n = g.simple_name(b"C") if not bad else (r.choice(S.chs) if S.chs and r.random() < 0.6 else g.name(0, special=0.3))
             L.append("analog " + xhex(n)); g.count("op_analog")
-            if n not in chs and not bad: chs.append(n)
+            if nframes == 0: S.chs.append(n)
+            elif n.rstrip(b" ") not in S.chs and S.nabf() > 0 and all(b == S.nabf() for a, b in S.frames):
+                S.chs.append(n.rstrip(b" "))
         elif c < 0.56:  # point columns
             k = r.choice([1, 1, 2, 3]); names = [g.simple_name(b"K") for _ in range(k)]
-            nf = nframes
+            nf = nframes; dev = None
             if bad:
                 dev = r.choice(["dup2", "nframes", "none", "short", "empty"]); g.count("cdev_" + dev)
-                if dev == "dup2" and pts: names[-1] = r.choice(pts)
+                if dev == "dup2" and S.pts: names[-1] = r.choice(S.pts)
                 elif dev == "nframes": nf = max(0, nframes + r.choice([-1, 1]))
                 elif dev == "none": nf = 0
             vs = []
-            for f in range(nf):
+            for f in range(min(nf, 40)):
                 v = newvar(); vs.append(v)
-                nn = names if not (bad and dev == "short" and f == nf - 1) else names[:-1]
-                if bad and dev == "empty": nn = []
+                nn = names if not (dev == "short" and f == nf - 1) else names[:-1]
+                if dev == "empty": nn = []
                 L.append("mkframe %s %s -" % (v, ";".join(point_str(g, n) for n in nn) or "-"))
             L.append("pointcol " + " ".join(vs) if vs else "pointcol"); g.count("op_pointcol")
+            if nf == nframes and nf > 0 and dev in (None, "nframes") and len(set(names)) == len(names) and not any(n in S.pts for n in names):
+                S.pts.extend(names); S.frames = [(a + len(names), b) for a, b in S.frames]
         elif c < 0.64:  # analog columns
             k = r.choice([1, 1, 2]); names = [g.simple_name(b"A") for _ in range(k)]
-            nf = nframes; ns = nsub
+            nf = nframes; ns = S.nabf(); dev = None
             if bad:
                 dev = r.choice(["dup2", "nframes", "none", "nsub", "empty", "short"]); g.count("cdev_" + dev)
-                if dev == "dup2" and chs: names[-1] = r.choice(chs)
+                if dev == "dup2" and S.chs: names[-1] = r.choice(S.chs)
                 elif dev == "nframes": nf = max(0, nframes + r.choice([-1, 1]))
                 elif dev == "none": nf = 0
-                elif dev == "nsub": ns = r.choice([0, nsub + 1, max(nsub - 1, 0)])
+                elif dev == "nsub": ns = r.choice([0, ns + 1, max(ns - 1, 0)])
             vs = []
-            for f in range(nf):
+            for f in range(min(nf, 40)):
                 v = newvar(); vs.append(v)
-                nn = names if not (bad and dev == "short" and f == nf - 1) else names[:-1]
-                if bad and dev == "empty": nn = []
+                nn = names if not (dev == "short" and f == nf - 1) else names[:-1]
+                if dev == "empty": nn = []
                 sub = ";".join("%s:%s" % (xhex(n), g.fbits()) for n in nn) or "e"
                 L.append("mkframe %s - %s" % (v, "|".join([sub] * ns) or "-"))
             L.append("analogcol " + " ".join(vs) if vs else "analogcol"); g.count("op_analogcol")
+            if nf == nframes and nf > 0 and dev in (None, "nframes") and ns == S.nabf() and ns > 0 and len(set(names)) == len(names) \
+               and not any(n in S.chs for n in names) and all(b == ns for a, b in S.frames):
+                S.chs.extend(names)
         elif c < 0.84:  # parameter edits
             k = r.random()
             if k < 0.5:
@@ -200,16 +256,13 @@ def gen_api_history(seed, nops=30, malformed=0.25, with_io=None, caller_mut=0.0,
         elif c < 0.90:
             grp = r.choice(groups) if not bad else g.name(0)
             L.append(("lock " if r.random() < 0.5 else "unlock ") + xhex(grp)); g.count("op_lock")
-        elif c < 0.95:  # rate / count edits through parameter()
-            which = r.choice(["prate", "arate", "used", "frames", "aused"])
+        elif c < 0.94:  # rate / count edits through parameter()
+            which = r.choice(["prate", "arate", "prate", "arate", "used", "frames", "aused"]) if bad else r.choice(["prate", "arate"])
             g.count("op_edit_" + which)
-            if which == "prate":
-                prate = r.choice([50.0, 100.0, 0.0, 25.0]); L.append("param %s %s x 0 F - %s" % (xhex(b"POINT"), xhex(b"RATE"), f2h(prate)))
-            elif which == "arate":
-                arate = r.choice([prate * 2, prate, 0.0, 1000.0]); L.append("param %s %s x 0 F - %s" % (xhex(b"ANALOG"), xhex(b"RATE"), f2h(arate)))
-                if prate: nsub = int(arate / prate) if arate else nsub
-            elif which == "used": L.append("param %s %s x 1 I - %d" % (xhex(b"POINT"), xhex(b"USED"), r.choice([0, len(pts), len(pts) + 1, 1])))
-            elif which == "aused": L.append("param %s %s x 1 I - %d" % (xhex(b"ANALOG"), xhex(b"USED"), r.choice([0, len(chs), len(chs) + 1, 1])))
+            if which == "prate": set_prate(r.choice([50.0, 100.0, 0.0, 25.0] if bad else [50.0, 100.0, 25.0]))
+            elif which == "arate": set_arate(r.choice([S.prate * 2, S.prate, 0.0, 1000.0] if bad else [S.prate * 2, S.prate, S.prate * 3]))
+            elif which == "used": L.append("param %s %s x 1 I - %d" % (xhex(b"POINT"), xhex(b"USED"), r.choice([0, len(S.pts), len(S.pts) + 1, 1])))
+            elif which == "aused": L.append("param %s %s x 1 I - %d" % (xhex(b"ANALOG"), xhex(b"USED"), r.choice([0, len(S.chs), len(S.chs) + 1, 1])))
             else: L.append("param %s %s x 1 I - %d" % (xhex(b"POINT"), xhex(b"FRAMES"), r.choice([0, nframes, nframes + 1])))
         else:
             if with_io and r.random() < 0.7:
